@@ -167,3 +167,36 @@ def weight_store_sites(f: FunctionInfo) -> list:
                                                (isinstance(a0, ast.Dict) and any(isinstance(k, ast.Constant) and k.value == "weight" for k in a0.keys))):
                 out.append(nd)
     return out
+
+
+def operator_instances(prog, iface: str, meth: str) -> list[FunctionInfo]:
+    """Every implementation of *meth* below *iface* as it runs in a concrete class: the definitions in classes that leave no hook abstract, plus -
+    for a concrete class that inherits the method from a base with abstract hooks (template method) - the inherited definition with the concrete
+    class as receiver (a copy of the FunctionInfo whose .cls is that class, so that self.hook(...) resolves from there)."""
+    import dataclasses
+    from ..frontend import is_stub
+    out: list[FunctionInfo] = []
+    seen: set = set()
+    for c in prog.subclasses(iface):
+        f = prog.lookup_method(c, meth)
+        if f is None or f.cls is None or is_stub(f.node) or f.cls.fullname == iface:
+            continue
+        hooks = {x.func.attr for x in walk_local(f.node) if isinstance(x, ast.Call) and is_self_attr(x.func)}
+        targets = {h: prog.lookup_method(c, h) for h in hooks}
+        if any(t is not None and is_stub(t.node) for t in targets.values()):
+            continue            # this class leaves a hook abstract: it is analysed through its concrete subclasses
+        if f.cls is c:
+            key = (f.fullname, None)
+            g = f
+        else:
+            base_targets = {h: prog.lookup_method(f.cls, h) for h in hooks}
+            if all(base_targets[h] is targets[h] for h in hooks):
+                key = (f.fullname, None)          # inherited unchanged, nothing overridden: the definition itself
+                g = f
+            else:
+                key = (f.fullname, c.fullname)
+                g = dataclasses.replace(f, cls=c)
+        if key not in seen:
+            seen.add(key)
+            out.append(g)
+    return out
